@@ -342,6 +342,59 @@ func planLocalSelectDistribute(p *Prog, in *inliner, plan *roundPlan) {
 					if !okAll || len(users) == 0 || uses[obj] != nUses+1 {
 						continue
 					}
+					// COND is evaluated again before every user: nothing it reads may be what the users store into (the two
+					// alternatives included)
+					stored := map[types.Object]bool{}
+					note := func(e ast.Node) {
+						ast.Inspect(e, func(m ast.Node) bool {
+							if id, ok := m.(*ast.Ident); ok {
+								if o := info.Uses[id]; o != nil && o != obj {
+									if _, isVar := o.(*types.Var); isVar {
+										stored[o] = true
+									}
+								}
+							}
+							return true
+						})
+					}
+					// the place stored into is the base of the target's selector / index chain (its keys are only read)
+					root := func(e ast.Expr) ast.Node {
+						for {
+							switch x := ast.Unparen(e).(type) {
+							case *ast.IndexExpr:
+								e = x.X
+							case *ast.SelectorExpr:
+								e = x.X
+							case *ast.StarExpr:
+								e = x.X
+							default:
+								return e
+							}
+						}
+					}
+					note(root(def.Rhs[0]))
+					note(root(set.Rhs[0]))
+					for _, u := range users {
+						switch st := u.st.(type) {
+						case *ast.AssignStmt:
+							for _, l := range st.Lhs {
+								note(root(l))
+							}
+						case *ast.IncDecStmt:
+							note(root(st.X))
+						case *ast.ExprStmt:
+							note(st.X) // a call: anything it is handed may be written through
+						}
+					}
+					clash := false
+					for o := range condObjs {
+						if stored[o] {
+							clash = true
+						}
+					}
+					if clash {
+						continue
+					}
 					a := in.text(def.Rhs[0].Pos(), def.Rhs[0].End())
 					b := in.text(set.Rhs[0].Pos(), set.Rhs[0].End())
 					cond := in.text(ifs.Cond.Pos(), ifs.Cond.End())
@@ -394,8 +447,8 @@ func callFreeExceptMethods(e ast.Expr) bool {
 }
 
 // planFlagAccumulate: a boolean local accumulated by expression, `x = x || C` (or `x = C || x`), is the conditional
-// store `if C { x = true }`; `x = x && C` is `if !(C) { x = false }` - C free of calls other than method calls on plain
-// operands, so that evaluating it when the flag is already set changes nothing. "One handler asking for a retry is
+// store `if C { x = true }`; `x = x && C` is `if !(C) { x = false }` - C free of calls, function literals and channel
+// receives, so that evaluating it when the flag is already set changes nothing. "One handler asking for a retry is
 // enough" written as a running disjunction is the flag set in a branch, which is the form the path rules read.
 func planFlagAccumulate(p *Prog, in *inliner, plan *roundPlan) {
 	for _, pkg := range p.Pkgs {
@@ -465,8 +518,8 @@ func planFlagAccumulate(p *Prog, in *inliner, plan *roundPlan) {
 						if i == self {
 							continue
 						}
-						if !callFreeExceptMethods(o) {
-							okC = false
+						if !callFree(o) {
+							okC = false // the operand is evaluated whatever the flag is: it must have no effect
 						}
 						rest = append(rest, "("+in.text(o.Pos(), o.End())+")")
 					}
